@@ -214,7 +214,18 @@ EvInt(e, env, dx0) ==
                       QSub(QMul(PolyAt(c, hi.v), hi.d), QMul(PolyAt(c, lo.v), lo.d))) IN
   Mk(val, dv)
 
+\* a derivative with respect to x inside e (the value of  [D x. f]_x=a,b  is a value of the derivative at a point, which the
+\* calculator has no notation for: such EvalAt expressions are not examined)
+RECURSIVE DerivOn(_, _)
+DerivOn(e, x) == CASE e[1] = "deriv" -> e[2] = x \/ DerivOn(e[3], x)
+                   [] e[1] = "op" -> DerivOn(e[3], x) \/ DerivOn(e[4], x)
+                   [] e[1] = "neg" -> DerivOn(e[2], x)
+                   [] e[1] = "fun" -> \E i \in 1..Len(e[3]) : DerivOn(e[3][i], x)
+                   [] e[1] \in {"int", "evalat", "sum"} -> DerivOn(e[3], x) \/ DerivOn(e[4], x) \/ DerivOn(e[5], x)
+                   [] e[1] = "iint" -> DerivOn(e[3], x)
+                   [] OTHER -> FALSE
 EvEvalAt(e, env, dx0) ==
+  IF DerivOn(e[5], e[2]) THEN Unk ELSE
   LET dx == IF dx0 # "" /\ Occ(e, dx0) THEN dx0 ELSE ""
       x == e[2]  lo == Ev(e[3], env, dx)  hi == Ev(e[4], env, dx)  st == IF lo.st >= hi.st THEN lo.st ELSE hi.st IN
   IF st # 0 THEN Bad(st) ELSE
@@ -300,12 +311,24 @@ MaxVars == 5
 (* values differ.  With an indefinite integral or a Skolem constant on either side the claim is        *)
 (* "equal up to an additive constant": for every assignment of the other variables the difference is  *)
 (* the same at all grid values of the integration variable.                                           *)
+\* a binder that re-binds the variable of an enclosing binder (Expr.subst does not respect binders; such expressions are not examined)
+RECURSIVE Shadows(_, _)
+Shadows(e, bs) ==
+  CASE e[1] \in {"int", "evalat", "sum"} -> e[2] \in bs \/ Shadows(e[3], bs) \/ Shadows(e[4], bs) \/ Shadows(e[5], bs \cup {e[2]})
+    [] e[1] = "iint" -> e[2] \in bs \/ Shadows(e[3], bs \cup {e[2]})
+    [] e[1] = "lim" -> e[2] \in bs \/ Shadows(e[3], bs) \/ Shadows(e[4], bs \cup {e[2]})
+    [] e[1] = "op" -> Shadows(e[3], bs) \/ Shadows(e[4], bs)
+    [] e[1] = "neg" -> Shadows(e[2], bs)
+    [] e[1] = "deriv" -> Shadows(e[3], bs)
+    [] e[1] = "fun" -> \E i \in 1..Len(e[3]) : Shadows(e[3][i], bs)
+    [] OTHER -> FALSE
+
 SameValue(e, r, conds) ==
   LET vs == FV(e) \cup FV(r) \cup FVSeq(conds)
       iv == IVars(e) \cup IVars(r)
       upto == iv # {} \/ HasKind(e, "skolem") \/ HasKind(r, "skolem")
       No == [fails |-> FALSE, cmp |-> FALSE] IN
-  IF Cardinality(vs) > MaxVars \/ (upto /\ Cardinality(iv) # 1) THEN No ELSE
+  IF Cardinality(vs) > MaxVars \/ (upto /\ Cardinality(iv) # 1) \/ Shadows(e, {}) \/ Shadows(r, {}) THEN No ELSE
   LET pts == [vs -> Grid(Cardinality(vs))]
       adm == {env \in pts : \A i \in 1..Len(conds) : CondHolds(conds[i], env)}
       \* [both defined, difference] at one point
@@ -365,10 +388,12 @@ Printable(e, top) ==
     [] e[1] = "diff" -> Printable(e[2], FALSE)
     [] OTHER -> TRUE
 
-\* print / parse comparison of an expression value e with its re-parsed value rp (both concrete)
+\* print / parse comparison of an expression value e with its re-parsed value rp (both concrete); not judged when the
+\* expression (with its numerals evaluated) is not Printable
 SameUpToNumerals(e, rp) ==
   LET a == Canon(e)  b == Canon(rp) IN
   IF Len(a) = 0 \/ Len(b) = 0 THEN [judged |-> FALSE, same |-> TRUE]
-  ELSE IF HasKind(a, "bigconst") \/ HasKind(b, "bigconst") \/ HasKind(b, "oth") THEN [judged |-> FALSE, same |-> TRUE]
+  ELSE IF ~Printable(a, TRUE) \/ HasKind(a, "bigconst") \/ HasKind(b, "bigconst") \/ HasKind(b, "oth") THEN [judged |-> FALSE, same |-> TRUE]
   ELSE [judged |-> TRUE, same |-> a = b]
+PrintableCanon(e) == LET a == Canon(e) IN Len(a) > 0 /\ Printable(a, TRUE)
 =============================================================================
